@@ -23,11 +23,12 @@ pub struct Knobs {
     pub drop_pct: u64,             // percent of cases that drop all control handles at some wait
     pub reboot_scn_pct: u64,       // percent of cases directed at a long wait-for-reboot (install succeeds, reboot refused several times)
     pub twin_pct: u64,             // percent of cases / documents in which all apps share a version / are offered the same manifest version
+    pub resume_pct: u64,           // percent of cases in which the plan on record is offered again and the policy's answers vary
     pub reboot_record_pct: u64,    // percent of cases started on the recorded target version, with the first clock readings shaped (consistent / inconsistent)
 }
 pub fn default_knobs() -> Knobs {
     Knobs { cup: None, oneshot_pct: 15, forged_pct: 10, retry_after_pct: 20, update_pct: 50, faults_pct: 10,
-            weird_storage_pct: 10, clock_jump_pct: 10, bad_url_pct: 3, max_checks: 4, reboot_pct: 50, inject_pct: 25, drop_pct: 5, reboot_scn_pct: 5, twin_pct: 10, reboot_record_pct: 2 }
+            weird_storage_pct: 10, clock_jump_pct: 10, bad_url_pct: 3, max_checks: 4, reboot_pct: 50, inject_pct: 25, drop_pct: 5, reboot_scn_pct: 5, twin_pct: 10, resume_pct: 4, reboot_record_pct: 2 }
 }
 
 pub fn knobs_for(prop: &str) -> Knobs {
@@ -39,10 +40,10 @@ pub fn knobs_for(prop: &str) -> Knobs {
         "C07" => { k.retry_after_pct = 80; k.update_pct = 20; }
         "C08" => { k.faults_pct = 0; k.weird_storage_pct = 0; k.reboot_scn_pct = 15; }
         "C09" => { k.update_pct = 20; k.faults_pct = 0; }
-        "C04" => { k.update_pct = 85; }
+        "C04" => { k.update_pct = 85; k.resume_pct = 8; }
         "C10" => { k.update_pct = 85; k.twin_pct = 40; }
-        "C18" => { k.update_pct = 90; k.reboot_pct = 70; k.reboot_scn_pct = 20; k.clock_jump_pct = 30; k.reboot_record_pct = 35; }
-        "C05" | "C12" => { k.update_pct = 60; k.reboot_pct = 70; k.reboot_scn_pct = 35; }
+        "C18" => { k.update_pct = 90; k.reboot_pct = 70; k.reboot_scn_pct = 20; k.clock_jump_pct = 30; k.reboot_record_pct = 35; k.resume_pct = 12; }
+        "C05" | "C12" => { k.update_pct = 60; k.reboot_pct = 70; k.reboot_scn_pct = 35; k.resume_pct = 12; }
         "C11" => { k.update_pct = 60; k.reboot_pct = 70; k.inject_pct = 90; k.drop_pct = 15; k.oneshot_pct = 0; k.max_checks = 5; k.reboot_scn_pct = 35; }
         _ => {}
     }
@@ -323,6 +324,21 @@ pub fn gen_sm(rng: &mut Rng, k: &Knobs) -> Value {
                 15..=17 => json!({"control": "ondemand"}), _ => json!({"control": "scheduled"}) });
         }
         stimuli = st;
+    }
+    if rng.below(100) < k.resume_pct {
+        // Directed: the plan on record from an earlier attempt is offered again - the first response offers every app an
+        // update, the installer builds that very plan each time - and the policy's answers to "can it start" vary
+        // (deferred / denied / ok), over several checks in a row.
+        let pid = *rng.pick(&["plan-a", "plan-b"]);
+        storage.retain(|kv| { let k = strv(&kv[0]); k != "install_plan_id" && k != "update_first_seen_time" });
+        storage.push(json!([hx("install_plan_id"), {"str": hx(pid)}]));
+        if rng.chance(3, 4) { storage.push(json!([hx("update_first_seen_time"), {"int": ((base_w / 1000) + stored_offset(rng, 1_000_000_000)).to_string()}])); }
+        let apps_doc: Vec<Value> = app_ids.iter().map(|id| json!({"id": hx(id), "cohort": {"id": Value::Null, "hint": Value::Null, "name": Value::Null},
+            "uc": {"status": "ok", "manifest": hx(&format!("{}.{}.0.0", 2 + rng.below(8), rng.below(20)))}})).collect();
+        http.insert(0, json!({"status": 200, "retry_after": [], "auth": "genuine", "body": {"doc": {"daystart": {"days": rng.below(10000)}, "apps": apps_doc}}}));
+        plan = (0..4).map(|_| json!(hex::encode(pid))).collect();
+        can_start = (0..4).map(|_| json!(*rng.pick(&["deferred", "denied", "ok", "deferred"]))).collect();
+        allowed.insert(0, json!({"d": "ok", "params": rand_params_json(rng)}));
     }
     let mut inject: Vec<Value> = vec![];
     if !oneshot && rng.below(100) < k.inject_pct {
